@@ -243,11 +243,12 @@ pub(crate) fn years_between(
     second_days: i32,
     second_nanos: u64,
 ) -> i32 {
-    let first_year = days_to_date(first_days).0;
-    let first_doy = days_to_doy(first_days);
+    // Month and day of month are compared instead of the day of year, as the day of year of a date differs between leap and non leap years
+    let (first_year, first_month, first_day) = days_to_date(first_days);
+    let first_doy = (first_month, first_day);
 
-    let second_year = days_to_date(second_days).0;
-    let second_doy = days_to_doy(second_days);
+    let (second_year, second_month, second_day) = days_to_date(second_days);
+    let second_doy = (second_month, second_day);
 
     let mut years_between = first_year - second_year;
 
